@@ -260,35 +260,39 @@ Proof.
   set (r2 := mk 0 0 (f_enq r0) (f_mq r0) 0 (f_role r0) (f_em r0) 0 (f_pb r0) (f_wq r0) 0 0) in *.
   assert (W2 : wfr r2) by (subst r2 r0 pbn; destruct (nx =? 2); wf_mk).
   (* releasing the lock *)
-  assert (Rel : forall r3 tk p2,
+  assert (Rel : forall s2 r3 tk p2,
+            st s2 = enc r3 -> lst s2 = lst s -> rootq s2 = rootq s -> rq s2 = rq s -> pcs s2 = upd (pcs s) t p2 ->
+            grant s2 = grant s -> lockh s2 = None -> bmode s2 = false -> dw s2 = 0 -> holders s2 = holders s -> tokh s2 = tk ->
             wfr r3 -> f_owner r3 = 0 -> f_tr r3 = 0 -> f_ov r3 = 0 -> f_role r3 = f_role r -> f_em r3 = f_em r -> f_pb r3 = pbn ->
             f_wq r3 = 4096 - W + U s + (W - 1) * pbn -> f_ib r3 = 0 -> f_hi r3 = 0 -> (pbn = 1 -> 1 <= U s) ->
             holds p2 = false -> owns p2 = false -> waitpc p2 = ret_waits k ->
             ((tk = Some t /\ toks p2 = true /\ f_enq r3 = 1 /\ f_enq r = 0) \/ (tk = tokh s /\ toks p2 = false /\ f_enq r3 = f_enq r)) ->
-            Inv W (set_pc (set_tokh (set_dw (set_lockh (set_st s (enc r3)) None) 0) tk) t p2)).
-  { intros r3 tk p2 W3 R1 R2 R3 R4 R5 R6 R7 R8 R9 RU Ph Po Pw Tk.
+            Inv W s2).
+  { intros s2 r3 tk p2 E2 L2 Q2 Rq2 P2 G2 Lk2 B2 D2 H2 K2 W3 R1 R2 R3 R4 R5 R6 R7 R8 R9 RU Ph Po Pw Tk.
     split; [exact HW|]. split.
     - exists r3. pose proof (g_pbh _ _ _ G) as Gph. destruct G.
-      constructor; unfold U in *; gcbn; try assumption; try lia; try reflexivity; try congruence.
-      + split; [lia|]. auto.
-      + split; [|exact Hrq]. destruct Tk as [(-> & _ & E1 & E2)|(-> & _ & E1)].
-        * rewrite E1. rewrite E2 in Henq. destruct (tokh s); lia.
+      constructor; unfold U, head_bar in *; rewrite ?L2, ?Q2, ?Rq2, ?P2, ?G2, ?Lk2, ?B2, ?D2, ?H2, ?K2;
+        try assumption; try lia; try reflexivity; try congruence.
+      + split; [|exact Hrq]. destruct Tk as [(-> & _ & E1 & E2')|(-> & _ & E1)].
+        * rewrite E1. rewrite E2' in Henq. destruct (tokh s); lia.
         * rewrite E1. exact Henq.
       + apply g_wt_setpc; [exact Gwt | rewrite Hpc, Pw; cbn [waitpc]; auto].
-      + intros X. unfold head_bar. gcbn. apply Hn2. subst pbn. destruct (Z.eqb_spec nx 2); [assumption|lia].
+      + intros X. apply Hn2. subst pbn. destruct (Z.eqb_spec nx 2); [assumption|lia].
     - intros u. destruct (Z.eq_dec u t) as [->|Ne].
-      + constructor; gcbn; rewrite ?upd_same, ?Ph, ?Po, ?Pw.
+      + constructor; rewrite ?P2, ?G2, ?H2, ?Lk2, ?K2, ?upd_same, ?Ph, ?Po, ?Pw.
         * exact T1.
         * split; [discriminate | intros [X|X]; [discriminate|contradiction]].
         * destruct Tk as [(-> & Kp & _)|(-> & Kp & _)]; rewrite Kp; [split; auto | split; [intros X; contradiction|discriminate]].
         * exact T4.
         * intros X. contradiction.
         * discriminate.
-      + apply (other_thread_owner W s _ t u Ne T Ho); gcbn; try reflexivity.
-        * apply upd_other; exact Ne.
-        * discriminate.
-        * destruct Tk as [(-> & _ & _ & E2)|(-> & _)]; [|reflexivity].
-          rewrite E2 in Henq. assert (TN : tokh s = None) by (destruct (tokh s); [lia|reflexivity]).
+      + apply (other_thread_owner W s s2 t u Ne T Ho).
+        * rewrite P2. apply upd_other; exact Ne.
+        * rewrite G2. reflexivity.
+        * rewrite H2. reflexivity.
+        * rewrite Lk2. discriminate.
+        * rewrite K2. destruct Tk as [(-> & _ & _ & E2')|(-> & _)]; [|reflexivity].
+          rewrite E2' in Henq. assert (TN : tokh s = None) by (destruct (tokh s); [lia|reflexivity]).
           rewrite TN. split; [intros X; congruence|discriminate]. }
   assert (R0f : f_ib r0 = 0 /\ f_hi r0 = 0 /\ f_pb r0 = pbn /\ f_wq r0 = 4096 - W + U s + (W - 1) * pbn /\ f_enq r0 = f_enq r /\
                 f_role r0 = f_role r /\ f_em r0 = f_em r) by (subst r0; cbn [mk f_ib f_hi f_pb f_wq f_enq f_role f_em]; repeat split; auto).
@@ -303,10 +307,8 @@ Proof.
     assert (Pn0 : pbn = 0) by (subst pbn; destruct (Z.eqb_spec nx 2); [lia|reflexivity]).
     unfold changed, IN_BARRIER, ENQUEUED in Hs. rewrite changed_ib_f, changed_enq_f in Hs by assumption.
     subst r2. fcbn_in Hs. rewrite F1, !Z.eqb_refl in Hs. cbn [Z.eqb negb] in Hs. injection Hs as <-.
-    specialize (Rel (mk 0 0 (f_enq r0) (f_mq r0) 0 (f_role r0) (f_em r0) 0 (f_pb r0) (f_wq r0) 0 0) (tokh s) (after k)).
-    replace (set_tokh (set_dw (set_lockh (set_st s (enc (mk 0 0 (f_enq r0) (f_mq r0) 0 (f_role r0) (f_em r0) 0 (f_pb r0) (f_wq r0) 0 0))) None) 0) (tokh s))
-      with (set_dw (set_lockh (set_st s (enc (mk 0 0 (f_enq r0) (f_mq r0) 0 (f_role r0) (f_em r0) 0 (f_pb r0) (f_wq r0) 0 0))) None) 0) in Rel by reflexivity.
-    apply Rel; fcbn; try assumption; try reflexivity; try lia; try (destruct k; reflexivity).
+    eapply (Rel _ (mk 0 0 (f_enq r0) (f_mq r0) 0 (f_role r0) (f_em r0) 0 (f_pb r0) (f_wq r0) 0 0) (tokh s) (after k));
+      gcbn; fcbn; try assumption; try reflexivity; try lia; try (destruct k; reflexivity).
     right. split; [reflexivity|]. split; [destruct k; reflexivity | exact F5].
   - (* there is a next item: DIRTY stays behind, and the lock may be taken again on its behalf *)
     cbv iota in Hs. change (nz 1) with true in Hs. cbv iota in Hs.
@@ -342,19 +344,17 @@ Proof.
         unfold changed, IN_BARRIER, ENQUEUED in Hs. rewrite changed_ib_f, changed_enq_f in Hs by assumption.
         subst r3. fcbn_in Hs. rewrite F1, F5 in Hs. cbn [Z.eqb negb] in Hs.
         destruct (Z.eqb_spec (f_enq r) 1) as [He|He]; cbn [negb] in Hs; injection Hs as <-.
-        -- match goal with |- Inv W (set_pc ?s1 t ?p) =>
-             replace s1 with (set_tokh s1 (tokh s)) by reflexivity end.
-           apply Rel; unfold set_enq1; fcbn; try assumption; try reflexivity; try lia; try (destruct k; reflexivity).
+        -- eapply (Rel _ _ (tokh s) (after k)); gcbn; try reflexivity; unfold set_enq1; fcbn;
+             try assumption; try reflexivity; try lia; try (destruct k; reflexivity).
            right. split; [reflexivity|]. split; [destruct k; reflexivity | lia].
-        -- apply Rel; unfold set_enq1; fcbn; try assumption; try reflexivity; try lia; try (destruct k; reflexivity).
+        -- eapply (Rel _ _ (Some t) (X_rootpush k)); gcbn; try reflexivity; unfold set_enq1; fcbn;
+             try assumption; try reflexivity; try lia; try (destruct k; reflexivity).
            left. repeat split; auto; lia.
       * assert (W4 : wfr (mk 0 0 (f_enq r0) (f_mq r0) 0 (f_role r0) (f_em r0) 1 pbn (4096 - W + U s + (W - 1) * pbn) 0 0))
           by (destruct Pbn as [->| ->]; wf_mk).
         unfold changed, IN_BARRIER, ENQUEUED in Hs. rewrite changed_ib_f, changed_enq_f in Hs by assumption.
         fcbn_in Hs. rewrite F1, !Z.eqb_refl in Hs. cbn [Z.eqb negb] in Hs. injection Hs as <-.
-        match goal with |- Inv W (set_pc ?s1 t ?p) =>
-          replace s1 with (set_tokh s1 (tokh s)) by reflexivity end.
-        apply Rel; fcbn; try assumption; try reflexivity; try lia; try (destruct k; reflexivity);
-          try (destruct Pbn as [->| ->]; wf_mk).
+        eapply (Rel _ _ (tokh s) (after k)); gcbn; try reflexivity; fcbn;
+          try assumption; try reflexivity; try lia; try (destruct k; reflexivity).
         right. split; [reflexivity|]. split; [destruct k; reflexivity | exact F5].
 Qed.
